@@ -648,7 +648,22 @@ func (c *compiler) compile(tok *token) []instruction {
 		for i := len(tok.Tokens[switchCases].Tokens) - 1; i >= 0; i-- {
 			cs := tok.Tokens[switchCases].Tokens[i]
 			const caseStmt, caseBlock = 0, 1
-			csStmt := c.optimize(c.compile(cs.Tokens[caseStmt]))
+			// case a, b, c: matches when any of the alternatives does
+			alts := []*token{cs.Tokens[caseStmt]}
+			if alts[0].Symbol == "," {
+				alts = alts[0].Tokens
+			}
+			var csStmt []instruction
+			for n := len(alts) - 1; n >= 0; n-- {
+				alt := c.optimize(c.compile(alts[n]))
+				if isValue {
+					alt = append(alt, instruction{Code: codeLocalGet, A: reg(v)}, instruction{Code: codeEq})
+				}
+				if csStmt != nil {
+					alt = append(alt, instruction{Code: codeOr, A: reg(len(csStmt))})
+				}
+				csStmt = append(alt, csStmt...)
+			}
 			c.Begin()
 			csBlock := c.optimize(c.compileAll(cs.Tokens[caseBlock].Tokens))
 			for n, ins := range csBlock {
@@ -660,10 +675,6 @@ func (c *compiler) compile(tok *token) []instruction {
 			c.End()
 			var chunk []instruction
 			chunk = append(chunk, csStmt...)
-			if isValue {
-				chunk = append(chunk, instruction{Code: codeLocalGet, A: reg(v)})
-				chunk = append(chunk, instruction{Code: codeEq})
-			}
 			chunk = append(chunk, instruction{Code: codeJumpFalse, A: reg(len(csBlock) + 1)})
 			chunk = append(chunk, csBlock...)
 			chunk = append(chunk, instruction{Code: codeJump, A: reg(len(out) + len(defBlock))})
